@@ -4,8 +4,8 @@ import (
 	"bytes"
 	"encoding/json"
 	"encoding/xml"
-	"io"
 	"fmt"
+	"io"
 	"strings"
 
 	mxj "github.com/clbanning/mxj/v2"
